@@ -49,7 +49,8 @@ Record ccset := mkCC {
   cc_v4 : option pool;
   cc_v6 : option pool;
   cc_assoc : list str;         (* AssociatedNodes *)
-  cc_term : bool               (* Terminating *)
+  cc_term : bool;              (* Terminating *)
+  cc_start : bool              (* ghost: mapped by the constructor (its ClusterCIDR was known at start-up) *)
 }.
 
 Definition cidrmap := list (str * list ccset).   (* selector key -> entries (Go map; key order is irrelevant) *)
@@ -110,11 +111,11 @@ Definition all_entries (m : cidrmap) : list ccset := flat_map snd m.
 Definition pool_of (c : ccset) (f : fam) : option pool := match f with V4 => cc_v4 c | V6 => cc_v6 c end.
 Definition with_pool (c : ccset) (f : fam) (p : pool) : ccset :=
   match f with
-  | V4 => mkCC (cc_name c) (Some p) (cc_v6 c) (cc_assoc c) (cc_term c)
-  | V6 => mkCC (cc_name c) (cc_v4 c) (Some p) (cc_assoc c) (cc_term c)
+  | V4 => mkCC (cc_name c) (Some p) (cc_v6 c) (cc_assoc c) (cc_term c) (cc_start c)
+  | V6 => mkCC (cc_name c) (cc_v4 c) (Some p) (cc_assoc c) (cc_term c) (cc_start c)
   end.
-Definition with_assoc (c : ccset) (a : list str) : ccset := mkCC (cc_name c) (cc_v4 c) (cc_v6 c) a (cc_term c).
-Definition with_term (c : ccset) (t : bool) : ccset := mkCC (cc_name c) (cc_v4 c) (cc_v6 c) (cc_assoc c) t.
+Definition with_assoc (c : ccset) (a : list str) : ccset := mkCC (cc_name c) (cc_v4 c) (cc_v6 c) a (cc_term c) (cc_start c).
+Definition with_term (c : ccset) (t : bool) : ccset := mkCC (cc_name c) (cc_v4 c) (cc_v6 c) (cc_assoc c) t (cc_start c).
 
 (* allocator.Occupy / Release (578-617), with the nil-pool guard added by the repair of D1 *)
 Definition cc_occupy (c : ccset) (x : cidr) : res ccset :=
@@ -463,12 +464,23 @@ Definition allocate_or_occupy (po : parse_oracle) (lab : label_oracle) (canp api
 (* ---------- ReleaseCIDR (661-690): the node's CIDRs are released from EVERY entry it is associated
    with, whatever its labels are now (repair of D10/D11); entries are visited by selector key, then
    position ---------- *)
-Fixpoint release_pcidrs (c : ccset) (cs : list pcidr) : ccset * res unit :=
+(* ---------- service ranges (694-727), with the nil-pool guard (repair of D3') ---------- *)
+Definition occupy_service (c : ccset) (svc : cidr) : ccset :=
+  match pool_of c (cf svc) with
+  | None => c
+  | Some p => if overlapb (grange (pg p)) svc then match cc_occupy c svc with Ok c' => c' | _ => c end else c
+  end.
+
+(* after the release of a pod CIDR from an entry, the service ranges are occupied in it again: the released pod
+   CIDR may have covered part of a service range (repair of D22) *)
+Definition occupy_services (c : ccset) (svcs : list cidr) : ccset := fold_left occupy_service svcs c.
+
+Fixpoint release_pcidrs (svcs : list cidr) (c : ccset) (cs : list pcidr) : ccset * res unit :=
   match cs with
   | [] => (c, Ok tt)
   | PBad :: _ => (c, Err EParse)
   | PGood x _ :: cs' => match cc_release c x with
-                        | Ok c' => release_pcidrs c' cs'
+                        | Ok c' => release_pcidrs svcs (occupy_services c' svcs) cs'
                         | Err e => (c, Err e)
                         | Panic => (c, Panic)
                         end
@@ -482,17 +494,6 @@ Definition assoc_paths (m : cidrmap) (name : str) : list path :=
                      end)
            (sort_by str_ltb (map fst m)).
 
-(* ---------- service ranges (694-727), with the nil-pool guard (repair of D3') ---------- *)
-Definition occupy_service (c : ccset) (svc : cidr) : ccset :=
-  match pool_of c (cf svc) with
-  | None => c
-  | Some p => if overlapb (grange (pg p)) svc then match cc_occupy c svc with Ok c' => c' | _ => c end else c
-  end.
-
-(* after the release of a node's pod CIDRs from an entry, the service ranges are occupied in it again: a released pod
-   CIDR may have covered part of a service range (repair 0b88a57) *)
-Definition occupy_services (c : ccset) (svcs : list cidr) : ccset := fold_left occupy_service svcs c.
-
 Fixpoint release_all (svcs : list cidr) (m : cidrmap) (node : nodeobj) (ps : list path) : cidrmap * res unit :=
   match ps with
   | [] => (m, Ok tt)
@@ -500,8 +501,8 @@ Fixpoint release_all (svcs : list cidr) (m : cidrmap) (node : nodeobj) (ps : lis
       match get_entry m p with
       | None => (m, Panic)
       | Some c =>
-          match release_pcidrs c (n_cidrs node) with
-          | (c', Ok _) => release_all svcs (set_entry m p (del_assoc (n_name node) (occupy_services c' svcs))) node ps'
+          match release_pcidrs svcs c (n_cidrs node) with
+          | (c', Ok _) => release_all svcs (set_entry m p (del_assoc (n_name node) c')) node ps'
           | (c', e) => (set_entry m p c', e)
           end
       end
@@ -539,13 +540,13 @@ Definition mk_pool (want : fam) (fp : fieldparse) (hb : Z) : res (option pool) :
       else match new_pool (cf c) (ca c) (cl c) hb with NewOk p => Ok (Some p) | NewErr => Err EInvalid end
   end.
 
-Definition create_set (o : ccobj) (term : bool) : res ccset :=
+Definition create_set (o : ccobj) (term start : bool) : res ccset :=
   match mk_pool V4 (o_v4 o) (o_hb o) with
   | Err e => Err e | Panic => Panic
   | Ok p4 =>
       match mk_pool V6 (o_v6 o) (o_hb o) with
       | Err e => Err e | Panic => Panic
-      | Ok p6 => Ok (mkCC (o_name o) p4 p6 [] term)
+      | Ok p6 => Ok (mkCC (o_name o) p4 p6 [] term start)
       end
   end.
 
@@ -575,7 +576,7 @@ Definition create_cluster_cidr (m : cidrmap) (o : ccobj) (term bootstrap : bool)
   match o_selkey o with
   | None => (m, Err ESelector, [])
   | Some k =>
-      match create_set o term with
+      match create_set o term bootstrap with
       | Err e => (m, Err e, [])
       | Panic => (m, Panic, [])
       | Ok c =>
